@@ -180,6 +180,8 @@ impl Prop for C15 {
         }
         let mut reps: Vec<Option<Dyn<f64>>> = vec![Some(root)];
         let mut delivered = vec![0usize];
+        let mut hist: Vec<Vec<f64>> = vec![vec![]];
+        let mut viol_rep = 0usize;
         let mut special_before = false;
         let mut panic_at = |p: PanicInfo, step: usize, what: &str| -> Violation {
             Violation::new("panic", p.key(), step, format!("{} panicked: '{}' at {}", what, p.msg, p.loc))
@@ -192,6 +194,8 @@ impl Prop for C15 {
             match *e {
                 Ev::D { v, tag, .. } => {
                     let view = reps[r].as_mut().unwrap();
+                    hist[r].push(v);
+                    viol_rep = r;
                     if let Err(p) = try_update(view, v) {
                         out.violation = Some(panic_at(p, step, "update"));
                         break;
@@ -215,6 +219,7 @@ impl Prop for C15 {
                 }
                 Ev::O { k, .. } => {
                     let view = reps[r].as_ref().unwrap();
+                    viol_rep = r;
                     if delivered[r] == 0 {
                         st.hit("reach.last_before_first_update");
                         special_before = true;
@@ -248,6 +253,8 @@ impl Prop for C15 {
                         Ok(c) => {
                             reps.push(Some(c));
                             delivered.push(delivered[r]);
+                            let hcopy = hist[r].clone();
+                            hist.push(hcopy);
                             st.hit("ev.fork");
                             special_before = true;
                         }
@@ -268,6 +275,11 @@ impl Prop for C15 {
                 }
                 Ev::L { .. } | Ev::M { .. } => {}
             }
+        }
+        if out.violation.is_some() && fed_immoderate_magnitude(spec, &hist[viol_rep.min(hist.len() - 1)], Symptom::Panic) {
+            // e.g. a finiteness assertion tripped by the square of a 1e200 that an inner Roc legitimately produced
+            out.violation = None;
+            st.hit("skip.immoderate_intermediate_magnitude");
         }
         // window longer than the stream?
         let total: usize = delivered.iter().sum();
@@ -297,6 +309,7 @@ impl Prop for C15 {
         vec![
             "inputs are finite, of magnitude 0 or within [1e-3,1e7], positive where the tree contains Drawdown/LnReturn, and divisor positions hold positivity-preserving subtrees".into(),
             "a constructor that panics (rejects its arguments) is not a violation: the property is about constructed views".into(),
+            "moderate magnitude holds for every node of a chain: a panic is not a finding when the panicking node had been fed a value beyond 1e100 by its own child; counted under skipped.immoderate_intermediate_magnitude".into(),
             "secondary parameters stay in their documented ranges (gamma in [0,1), Ema weight alpha/(N+1) in (0,1], Alma sigma>0, offset in [0,1])".into(),
         ]
     }
